@@ -54,6 +54,9 @@ def main():
         if k == "cf":
             return jaxutil.to_onnx(c06.make_fn(req["body"], req.get("stacked", False)),
                                    [S((3,), np.float32), S(("T" if req.get("sym") else 2, 3), np.float32), S((), np.int32), S((), np.bool_)])
+        if k == "fnmode":
+            # the module-level function whose body fails for other requests (see fail()): here its body is supported
+            return jaxutil.to_onnx(c16.make_unsupported("removed_plugin", "function_body", req["core"]), [S((3,), np.float32), S((), np.int32), S((), np.bool_)])
         if k == "nchw":
             from vf.props import c12
 
